@@ -48,6 +48,28 @@ def ort_run(model: onnx.ModelProto, feeds: dict) -> list:
         ORT_FALLBACKS["aborted"] = _WORKER.crashes
 
 
+def _worker():
+    global _WORKER
+    from harness import lib_ortworker
+
+    if _WORKER is None:
+        _WORKER = lib_ortworker.OrtWorker()
+    return _WORKER
+
+
+def safe_full_check(model: onnx.ModelProto) -> None:
+    """onnx.checker.check_model(model, full_check=True), in the child process (raises what the checker raises,
+    `RuntimeAborted` when onnx's shape inference crashes natively)."""
+    _worker().full_check(model.SerializeToString())
+
+
+def safe_convert(model: onnx.ModelProto, target: int) -> onnx.ModelProto:
+    """onnx.version_converter.convert_version(model, target) ALONE (no spox), in the child process."""
+    out = onnx.ModelProto()
+    out.ParseFromString(_worker().convert(model.SerializeToString(), target))
+    return out
+
+
 def np_dtype(elem: int):
     return onnx.helper.tensor_dtype_to_np_dtype(elem)
 
@@ -539,7 +561,7 @@ def converter_blame(m: onnx.ModelProto, vals_list: list) -> Optional[str]:
         opset = next((o.version for o in m.opset_import if o.domain in ("", "ai.onnx")), 17)
         if opset >= 13 or not any(nd.op_type == "Hardmax" and nd.domain in ("", "ai.onnx") for nd in all_nodes(m.graph)):
             return None
-        conv = onnx.version_converter.convert_version(m, 13)
+        conv = safe_convert(m, 13)
         for vals in vals_list:
             a, b = ort_run(m, vals), ort_run(conv, vals)
             if any(not same(x, y) for x, y in zip(a, b)):
@@ -558,9 +580,9 @@ def converter_invalid(m: onnx.ModelProto) -> Optional[str]:
         for t in (14, 17, 18, 19, 20, 21):
             if t <= opset:
                 continue
-            conv = onnx.version_converter.convert_version(m, t)
+            conv = safe_convert(m, t)
             try:
-                onnx.checker.check_model(conv, full_check=True)
+                safe_full_check(conv)
             except Exception as e:  # noqa: BLE001
                 if "single static assignment" in str(e):
                     return "version-converter:invalid-model:duplicate-names"
@@ -579,9 +601,9 @@ def converter_asserts(m: onnx.ModelProto) -> Optional[str]:
             if t <= opset:
                 continue
             try:
-                onnx.version_converter.convert_version(m, t)
-            except RuntimeError as e:
-                if "owningGraph" in str(e):
+                safe_convert(m, t)
+            except Exception as e:  # noqa: BLE001
+                if type(e).__name__ == "RuntimeError" and "owningGraph" in str(e):
                     return "version-converter:RuntimeError:captured-result"
     except Exception:  # noqa: BLE001
         return None
@@ -730,7 +752,7 @@ def partner_model(v: int, rank: int = 1) -> onnx.ModelProto:
     nodes.append(H.make_node("Add", ["px", "pr"], ["py"]))
     vi = lambda n: H.make_tensor_value_info(n, TP.FLOAT, [None] * rank)  # noqa: E731
     pm = H.make_model(H.make_graph(nodes, "partner", [vi("px")], [vi("py")]), opset_imports=[H.make_operatorsetid("", v)], ir_version=7 if v < 15 else 8)
-    onnx.checker.check_model(pm, full_check=True)
+    safe_full_check(pm)
     return pm
 
 
@@ -1305,7 +1327,7 @@ def oracle_errors(m: onnx.ModelProto, seed: int) -> list[tuple[str, str]]:
 
 def valid(m: onnx.ModelProto, runnable: bool, rng: random.Random) -> bool:
     try:
-        onnx.checker.check_model(m, full_check=True)
+        safe_full_check(m)
         if runnable:
             ort_run(m, input_values(rng, m))
         return True
@@ -1717,7 +1739,7 @@ def run(ck: core.Check):
         m, meta = L.HandGen(rng, scalar_int=True).model()
         vals = input_values(rng, m)
         try:
-            onnx.checker.check_model(m, full_check=True)
+            safe_full_check(m)
             exp = ort_run(m, vals)
         except Exception:  # noqa: BLE001
             continue
